@@ -552,7 +552,7 @@ def run_tlc_family(ctx):
         raise core.MachineryError(f"{discarded} of {len(cases)} generated models are refused by ORT")
 
 
-QUICK_REPLAYS = 3000
+QUICK_REPLAYS = 5000
 
 # ------------------------------------------------------------------ families without a TLC model
 SCRIPT_SRC = '''
